@@ -111,8 +111,11 @@ def manageCanaryPodFailures (pods : List Pod) (canary : Option Canary) (paramsSt
       canaryTimeout := cto, isUnpaused := isUnpaused,
       restartCond := restartCond.map (fun rc => (rc.lastTransition, rc.lastUpdate)),
       startCond := (findCond st.conds "Canary").map (·.lastTransition), now := now }
-    let s0 : FailState := { isFailed := isFailed, failedReason := "", isPaused := isPaused,
-                            pausedReason := pausedReason }
+    -- F3 repair: with no pod to evaluate, a manual unpause still overrides a previous pause
+    let override := pods.isEmpty && isUnpaused && !isFailed
+    let s0 : FailState := { isFailed := isFailed, failedReason := "",
+                            isPaused := if override then false else isPaused,
+                            pausedReason := if override then "" else pausedReason }
     let s := pods.foldl (failStep cfg) s0
     if s.panicked then none else
     let conds := updateCond st.conds now "Canary-Failed" (boolCond s.isFailed) s.failedReason "" false true
